@@ -36,6 +36,8 @@ def vec_field(a):
 
 
 def run(m, rep, tier):
+    from .. import canaries
+    canaries.run(m, rep, ('nw', 'alloc'))
     decls = header_functions(m, ('vector.h',))
     v1 = rep.rule('V1', 'parameter-derived arithmetic reaching an allocation size cannot wrap', floor=2)
     nent = 0
